@@ -143,7 +143,7 @@ Definition same_schema (a b : schema) : bool :=
   N.eqb (s_id a) (s_id b) && Bool.eqb (s_valid a) (s_valid b) && leqb sdef_eqb (s_defs a) (s_defs b) && leqb path_eqb (s_paths a) (s_paths b).
 
 (* SetSchema(openAPIField, schema, reset): fver = openAPIField["version"] if present.
-   (after the repairs <COMMIT-L> / <COMMIT-N>: a selection change away from / between custom schemas drops what was
+   (after the repairs 66a399d / 5e76c27: a selection change away from / between custom schemas drops what was
    parsed; selecting the built-in version already in use keeps it) *)
 Definition set_schema (s : ost) (fver : option string) (sch : option schema) (reset : bool) : ost * oclass :=
   let is_set := negb (String.eqb (o_ver s) "") || is_some (o_custom s) in
@@ -201,7 +201,7 @@ Definition init_schema (e : env) (s : ost) : ost * oclass :=
       end in
     match o_custom s1 with
     | Some c =>
-        (* (after the repair <COMMIT-M>) the default built-in schema is always loaded underneath a custom one *)
+        (* (after the repair 8b04412) the default built-in schema is always loaded underneath a custom one *)
         match parse_builtin e s1 default_version with
         | Some s2 =>
             let s3 := with_dflt s2 Parsed in
